@@ -151,11 +151,16 @@ pub fn print_stderr(info: &str, cmd: &Command, cl: &CommandLine) {
     }
 }
 
+/// Output that the command line sends elsewhere is not captured.
+fn is_redirected(cmd: &Command, fd: &str) -> bool {
+    cmd.redirects_to.iter().any(|x| x.0 == fd)
+}
+
 pub fn print_stderr_with_capture(info: &str, cr: &mut CommandResult,
                                  cl: &CommandLine, cmd: &Command,
                                  capture: bool) {
     cr.status = 1;
-    if capture {
+    if capture && !is_redirected(cmd, "2") {
         cr.stderr = info.to_string();
     } else {
         print_stderr(info, cmd, cl);
@@ -166,7 +171,7 @@ pub fn print_stdout_with_capture(info: &str, cr: &mut CommandResult,
                                  cl: &CommandLine, cmd: &Command,
                                  capture: bool) {
     cr.status = 0;
-    if capture {
+    if capture && !is_redirected(cmd, "1") {
         cr.stdout = info.to_string();
     } else {
         print_stdout(info, cmd, cl);
